@@ -167,6 +167,19 @@ def run_stmt(s, regs, ins, outs, st):
             continue
         if op == "ignore":
             rt.ignore_errors(bool(s[1])); continue
+        if op == "_prove":
+            # an early prove() in the middle of the program (REPL / notebook use): what it writes is discarded; the artefacts
+            # written by the final prove() must describe the whole trace all the same
+            st["pc"] -= 1
+            import tempfile, shutil, io, contextlib
+            d0 = tempfile.mkdtemp(prefix="pysnark-verif-prove0-"); cwd0 = os.getcwd()
+            try:
+                os.chdir(d0)
+                with contextlib.redirect_stdout(io.StringIO()), contextlib.redirect_stderr(io.StringIO()):
+                    rt.backend.prove()
+            finally:
+                os.chdir(cwd0); shutil.rmtree(d0, ignore_errors=True)
+            continue
         if op == "try":
             # runner-only statement (not in the Coq model): run the body, swallow an ordinary exception, carry on
             depth = len(st["gstack"])
@@ -339,7 +352,11 @@ def run_case(case):
     st["regs"] = {}
     st["bv"] = br.BranchingValues()
     try:
-        run_stmts(case["prog"], st["regs"], case["ins"], outs, st)
+        prog_ = case["prog"]
+        if REAL and case.get("prove") == 2:
+            k_ = len(prog_) // 2
+            prog_ = prog_[:k_] + [["_prove"]] + prog_[k_:]
+        run_stmts(prog_, st["regs"], case["ins"], outs, st)
     except (AssertionError, ValueError, ZeroDivisionError, TypeError, RuntimeError, NotImplementedError, IndexError,
             AttributeError, StopIteration, KeyboardInterrupt, SystemExit) as e:
         exn = type(e).__name__
